@@ -206,7 +206,7 @@ func (r *assignRun) runGrow(c assignCase, want shardMap) {
 		a = cloneAssignment(want, c.Shards)
 	} else {
 		if a, err = r.base(c); err != nil {
-			vevid.Fatal("base assignment of a growth case failed: %v (%+v)", err, c)
+			vevid.OpFailed("base assignment of a growth case failed: %v (%+v)", err, c)
 		}
 		before = toShardMap(a)
 	}
